@@ -186,3 +186,61 @@ def capture_site_rules(ctx: Ctx, rid: str) -> None:
     ctx.check("context.eval_ctx.autoescape)" in ast.unparse(md.node), "macro_def:default", "compiler:CodeGenerator.macro_def", "default autoescape", "the emitted Macro must receive context.eval_ctx.autoescape as its default", md.loc())
     mb = repo.func("compiler:CodeGenerator.macro_body")
     ctx.check("self.return_buffer_contents(frame, force_unescaped=True)" in ast.unparse(mb.node), "macro_body:unescaped", "compiler:CodeGenerator.macro_body", "macro function returns plain text", "the macro function itself must return unmarked text (Macro._invoke marks it according to the caller)", mb.loc())
+
+
+def template_eval_ctx_rule(ctx: Ctx, rid: str) -> None:
+    """One compile-time eval context per template, created with the template's name: a
+    name-based autoescape selector (select_autoescape) answers for *this* template.  A frame
+    built from another context - a fresh EvalContext(environment) for block bodies - asks the
+    selector about `None` and compiles the block with the wrong escaping decision."""
+    ctx.use("compiler")
+    ctx.rule(rid, "the compiler creates exactly one EvalContext, with (self.environment, self.name), and every Frame is constructed from it or from its parent frame's eval_ctx")
+    repo = ctx.repo
+    m = repo.module("compiler")
+    ecs = [c for c in astq.calls(m.tree) if astq.callee(c) == "EvalContext"]
+    ok = len(ecs) == 1 and [ast.unparse(a) for a in ecs[0].args] == ["self.environment", "self.name"] and not ecs[0].keywords
+    ctx.check(ok, "evalctx:single", "compiler:CodeGenerator.visit_Template", f"EvalContext constructed {len(ecs)}x: {[ast.unparse(c)[:50] for c in ecs]}",
+              f"the code generator must create its EvalContext once, as EvalContext(self.environment, self.name); found {[ast.unparse(c) for c in ecs]}: a context built without the template name lets `select_autoescape(...)` decide for a nameless template, so output compiled under it (block bodies) is not escaped in an autoescaped `.html` template",
+              f"{m.rel}:{ecs[0].lineno}" if ecs else m.rel)
+    var = None
+    if ecs:
+        par = getattr(ecs[0], "_parent", None)
+        if isinstance(par, ast.Assign) and isinstance(par.targets[0], ast.Name):
+            var = par.targets[0].id
+    n = 0
+    for c in astq.calls(m.tree):
+        if astq.callee(c) != "Frame" or not c.args:
+            continue
+        n += 1
+        a0 = ast.unparse(c.args[0])
+        ctx.check(a0 in ((var or "eval_ctx"), "self.eval_ctx"), f"evalctx:frame:{astq.enclosing_qual(c)}:{a0[:30]}", f"compiler:{astq.enclosing_qual(c)}", f"Frame({a0[:40]}, ...) is not built from the template's eval context",
+                  f"{astq.enclosing_qual(c)} constructs Frame({a0}): frames must share the template's EvalContext (the local holding EvalContext(self.environment, self.name), or the parent frame's eval_ctx)", f"{m.rel}:{c.lineno}")
+    ctx.floor("Frame constructions", n, 3)
+
+
+def sandbox_format_keeps_type_rule(ctx: Ctx, rid: str) -> None:
+    """The sandboxed replacement of str.format / format_map returns an object of the type of
+    the string it was called on: `Markup('<b>{}</b>').format(x)` stays Markup (its arguments
+    were escaped by the escape formatter); as a plain str the already escaped text would be
+    escaped a second time on output."""
+    ctx.use("sandbox")
+    ctx.rule(rid, "the sandboxed str.format wrapper returns type(f_self)(vformat(...)): the result of formatting a Markup string is Markup")
+    wf = ctx.repo.func("sandbox:SandboxedEnvironment.wrap_str_format")
+    inner = [n_ for n_ in ast.walk(wf.node) if isinstance(n_, ast.FunctionDef) and n_ is not wf.node]
+    ctx.need(len(inner) == 1, "wrap_str_format: the wrapper function was not found")
+    rets = [r for r in astq.returns(inner[0]) if r.value is not None]
+    ok = bool(rets)
+    for r in rets:
+        v = r.value
+        good = isinstance(v, ast.Call) and len(v.args) == 1 and isinstance(v.args[0], ast.Call) and astq.callee(v.args[0]).endswith("vformat")
+        if good:
+            f = v.func
+            ftxt = ast.unparse(f)
+            if isinstance(f, ast.Name):
+                src = [a.value for a in ast.walk(wf.node) if isinstance(a, (ast.Assign, ast.AnnAssign)) and a.value is not None and any(isinstance(t_, ast.Name) and t_.id == f.id for t_ in (a.targets if isinstance(a, ast.Assign) else [a.target]))]
+                ftxt = ast.unparse(src[0]) if len(src) == 1 else ftxt
+            good = ftxt in ("type(f_self)", "f_self.__class__")
+        ok = ok and good
+    ctx.check(ok, "wrap:result-type", "sandbox:SandboxedEnvironment.wrap_str_format", f"wrapper returns {[ast.unparse(r.value)[:50] for r in rets]}",
+              f"the sandboxed format wrapper returns {[ast.unparse(r.value) for r in rets]}: it must convert the formatted text back to type(f_self) - a plain str returned for a Markup format string is escaped again when it is output under autoescape (`&lt;` becomes `&amp;lt;`), so sandboxed and plain environments render differently",
+              wf.loc(inner[0]))
